@@ -31,7 +31,7 @@ COMPONENTS = {"real": ["setigen.frame (add_noise, add_noise_from_obs, zero_data,
 ASSUMPTIONS = ["statistical clauses are judged at 7 sigma (two-sided 2.6e-12 per test) on >= 16384 pixels; smaller distribution errors pass",
                "a frame that holds signals but no noise yet may report either the parameters or a re-estimate",
                "own sigma-clipping (median centre, 3 sigma, 5 iterations) compared at 1e-9"]
-PROBES = ["array_background_reestimated", "first_noise_on_empty", "later_noise_reestimated", "zero_data_then_noise", "table_share_index", "table_independent",
+PROBES = ["chi2_with_leftover_gaussian_arguments", "array_background_reestimated", "first_noise_on_empty", "later_noise_reestimated", "zero_data_then_noise", "table_share_index", "table_independent",
           "shipped_table", "truncated_floor_checked", "moment_test_chi2", "moment_test_gaussian", "half_integer_resolution",
           "stream_quadrature", "array_background_quadrature", "signal_before_noise", "preloaded_frame",
           "estimates_not_observed_after_op", "two_resolutions_in_one_process", "rejected_noise_call"]
@@ -61,6 +61,8 @@ def generate(rng, tier):
             ops.append({"op": "noise", "kind": kind, "x_mean": rng.choice([1.0, 10.0, 5.5, 1e5, 0.01]),
                         "x_std": rng.choice([1.0, 0.5, 3.0, 250.0]), "x_min": rng.choice([0.0, 9.0, -1.0, 5.0]),
                         "observe": rng.random() < 0.6})
+            if kind == "chi2" and rng.random() < 0.25:
+                ops[-1]["chi2_extra"] = True
             if not big and kind in ("gaussian", "normal") and rng.random() < 0.15:
                 # degenerate but valid parameters: a zero-deviation pedestal, or zero-mean noise
                 if rng.random() < 0.6:
@@ -236,7 +238,25 @@ def execute(sc, ctx):
                     if nk == "chi2":
                         if k <= 0:
                             continue
-                        ret = fr.add_noise(op["x_mean"])
+                        if op.get("chi2_extra"):
+                            # chi-squared noise "only uses x_mean": a deviation and a floor left over in the call (a script
+                            # switched from Gaussian noise) change nothing
+                            import copy as _copy
+                            rng_before = _copy.deepcopy(fr.rng)
+                            ret = fr.add_noise(op["x_mean"], op["x_std"], op["x_min"], noise_type="chi2")
+                            plain = _copy.copy(fr)
+                            plain.data = np.zeros_like(fr.data)
+                            plain.rng = rng_before
+                            plain.noise_mean = plain.noise_std = 0
+                            want_ret = plain.add_noise(op["x_mean"], noise_type="chi2")
+                            ctx.hit("chi2_with_leftover_gaussian_arguments")
+                            if not ctx.check(np.array_equal(np.asarray(ret), np.asarray(want_ret)), "chi2",
+                                             "C11/chi2/other_parameters_not_ignored",
+                                             lambda: "add_noise(%r, %r, %r, 'chi2') differs from add_noise(%r) on the same generator state" % (
+                                                 op["x_mean"], op["x_std"], op["x_min"], op["x_mean"])):
+                                return
+                        else:
+                            ret = fr.add_noise(op["x_mean"])
                         x_mean, x_std, dist = op["x_mean"], op["x_mean"] * math.sqrt(2.0 / k), "chi2"
                     elif nk == "truncated":
                         ret = fr.add_noise(op["x_mean"], op["x_std"], op["x_min"], noise_type="gaussian")
